@@ -1,0 +1,10 @@
+//go:build verif
+
+package db
+
+// Verification hooks (build tag verif): expose private constants unchanged.
+
+const (
+	VerifSafeLock           = safeLock
+	VerifSessionedThreshold = datatype_sessioned_threshold
+)
